@@ -707,3 +707,10 @@ package keeper
 //@   props C15
 //@   pure
 //@   loop IterateWhitelist.0: invariant it_store == ent_store && ent_store == old(ent_store)
+
+// ================================================================ upgrade: parameter migration (C16) - hands the module store to v3.Migrate
+//@ func Migrator.Migrate2to3(ctx) (err)
+//@   props C16
+//@   modifies ent_store
+//@   ensures @only_the_parameter_key err == nil ==> ent_store == entParamsPut(old(ent_store), entParams(ent_store))
+//@   ensures @rejected_changes_nothing err != nil ==> ent_store == old(ent_store)
